@@ -1,9 +1,12 @@
 package main
 
 import (
+	"context"
 	"fmt"
 	"math/big"
 	"strings"
+	"sync"
+	"sync/atomic"
 	"time"
 
 	vc "github.com/formancehq/ledger/internal/verif/vcommon"
@@ -338,7 +341,14 @@ func genContention(r *vc.Rand) *Scenario {
 			return g.send(src, "sink", amt, "", "literal")
 		}
 	}
-	ph := Phase{Clients: g.clients(r.Range(2, 6), 2, mk), DieAt: -1, WorkerW: vc.Pick(r, []int{1, 1, 2, 4})}
+	mkc := func() Op {
+		op := mk()
+		if r.Chance(1, 5) {
+			op.CancelAt = r.Range(1, 16) // the client gives up somewhere between reservation and acknowledgement
+		}
+		return op
+	}
+	ph := Phase{Clients: g.clients(r.Range(2, 6), 2, mkc), DieAt: -1, WorkerW: vc.Pick(r, []int{1, 1, 2, 4})}
 	sc.Phases = append(sc.Phases, ph)
 	return sc
 }
@@ -388,6 +398,9 @@ func genIdempotency(r *vc.Rand) *Scenario {
 				continue
 			}
 			c := r.Intn(nClients)
+			if r.Chance(1, 6) {
+				op.CancelAt = r.Range(1, 16)
+			}
 			plans[c].Ops = append(plans[c].Ops, op)
 		}
 	}
@@ -443,6 +456,9 @@ func genReferences(r *vc.Rand) *Scenario {
 		}
 		if r.Chance(1, 6) { // a preview carrying the contested reference
 			op.DryRun = true
+		}
+		if r.Chance(1, 5) {
+			op.CancelAt = r.Range(1, 16)
 		}
 		c := r.Intn(nClients)
 		plans[c].Ops = append(plans[c].Ops, op)
@@ -503,7 +519,14 @@ func genReverts(r *vc.Rand) *Scenario {
 		if r.Chance(1, 10) {
 			id = "99" // unknown transaction
 		}
-		return g.revert(id, r.Chance(1, 3))
+		op := g.revert(id, r.Chance(1, 3))
+		if r.Chance(1, 6) {
+			op.DryRun = true // a preview of a revert, racing with real ones
+		}
+		if r.Chance(1, 6) {
+			op.CancelAt = r.Range(1, 16)
+		}
+		return op
 	}
 	sc.Phases = append(sc.Phases, Phase{Clients: g.clients(nClients, 2, mk), DieAt: -1, WorkerW: vc.Pick(r, []int{1, 1, 3})})
 	if r.Bool() { // later, sequential attempts on the same targets (forced and unforced), after a restart
@@ -574,7 +597,7 @@ func genPostingMode(r *vc.Rand) *Scenario {
 		for k := r.Intn(3); k > 0; k-- {
 			op.Meta[vc.Pick(r, []string{"k", "note", "é", "a b"})] = vc.Pick(r, []string{"", "v", "日本", "{\"x\":1}"})
 		}
-		op.Via = vc.Pick(r, []string{"", "", "v2", "v1"})
+		op.Via = vc.Pick(r, []string{"", "", "v2", "v1", "bulk"})
 		if r.Chance(1, 12) { // near-miss: invalid address / asset -> must be refused as a whole
 			i := r.Intn(len(op.Postings))
 			if r.Bool() {
@@ -603,4 +626,68 @@ func genWrites(r *vc.Rand) *Scenario {
 		return op
 	}), DieAt: -1, WorkerW: vc.Pick(r, []int{1, 1, 3})})
 	return sc
+}
+
+// ------------------------------------------------------------------------------------------------ batch boundary
+// runBigBatch: more writes than the batcher's maximum batch size (4096) queue up while the first batch is held at the
+// persistence gate, so the pending queue is split at the boundary.
+func runBigBatch(n int) (*ScenarioRun, int) {
+	env := NewEnv()
+	release := make(chan struct{})
+	var first atomic.Bool
+	env.store.SetGate(func(ctx context.Context, point string) error {
+		if point == "persist.begin" && first.CompareAndSwap(false, true) {
+			<-release
+		}
+		return nil
+	})
+	g, err := env.NewGeneration(context.Background())
+	run := &ScenarioRun{Env: env}
+	if err != nil {
+		run.InitErr = err.Error()
+		return run, 0
+	}
+	og := &opGen{r: vc.NewRand(99)}
+	var started atomic.Int64
+	var wg sync.WaitGroup
+	for k := 0; k < n; k++ {
+		var op Op
+		switch k % 3 {
+		case 0:
+			op = og.saveMetaAcc(fmt.Sprintf("acc%d", k%50), nil)
+		case 1:
+			op = og.fund(fmt.Sprintf("acc%d", k%50), 1)
+		default:
+			op = og.delMetaAcc(fmt.Sprintf("acc%d", k%50))
+		}
+		wg.Add(1)
+		go func() {
+			defer wg.Done()
+			rec := env.hist.call("big", g.n, op, env.step.Add(1))
+			started.Add(1)
+			res := execOp(context.Background(), g, op)
+			env.hist.ret(rec, res, env.step.Add(1))
+		}()
+	}
+	for w := 0; w < 2000 && started.Load() < int64(n); w++ {
+		time.Sleep(time.Millisecond)
+	}
+	time.Sleep(300 * time.Millisecond) // let the requests reach the batcher
+	close(release)
+	done := make(chan struct{})
+	go func() { wg.Wait(); close(done) }()
+	select {
+	case <-done:
+	case <-time.After(120 * time.Second):
+		run.Stalled = "big batch scenario did not finish within 120 s"
+		dumpStacks()
+	}
+	run.Obs = env.Observe(true)
+	max := 0
+	for _, b := range run.Obs.Batches {
+		if b.N > max {
+			max = b.N
+		}
+	}
+	return run, max
 }
